@@ -190,9 +190,9 @@ def showTarget (name : String) (t : Target) (sba : Bool) (verdict : String) (ds 
     (pipes : List (String × List StageDef)) : String :=
   if verdict != "ok" then name ++ "{" ++ verdict ++ "}" else
   let ps := pipes.map fun (n, st) =>
-    n ++ "[" ++ ",".intercalate ((stageReports t st).map fun s =>
+    n ++ "[" ++ ",".intercalate ((stageReports hlslRename t st).map fun s =>
       s.stage.name ++ ":" ++ s.entry ++ ":" ++ showThreads s.threads) ++ "]"
-  match bindingsFor hlslRename t sba ds with
+  match bindingsFor codeNameMaps t sba ds with
   | .error _ => name ++ "{model:unsupported-object-kind}"
   | .ok bs => name ++ "{" ++ ";".intercalate ps ++ "|" ++ ",".intercalate (sortStrings (bs.map showBinding)) ++ "}"
 
